@@ -345,6 +345,20 @@ Example C02_reset_nonvacuous :
   r_log s = [(0, 0, 0); (0, 1, 1); (1, 0, 2); (1, 1, 3); (0, 2, 4); (0, 3, 5); (1, 2, 6); (1, 3, 7)].
 Proof. vm_compute. repeat split; reflexivity. Qed.
 
+(* the schedule of scenario `resetslow`: the worker is INSIDE the pipeline for the last queued message (a slow handler) when
+   resetOwnThread() is called; the stop finds it pending and sleeps; a producer logs meanwhile: m_worker is still set, the
+   message is queued behind the one in flight (nobody else is inside the pipeline), the stop keeps waiting, the worker
+   delivers both in order, only then the thread is stopped and m_worker cleared *)
+Example C02_reset_slow_handler_schedule :
+  let quota := fun t => if Nat.ltb t 2 then 1 else 0 in
+  let s1 := rrun src_reset_prog quota rs0 [AProd 0; AProd 0; AWorker; AResetter; AResetter; AProd 1; AProd 1; AResetter; AResetter] in
+  let s2 := rrun src_reset_prog quota s1 ([AWorker; AWorker; AWorker] ++ repeat AResetter 6) in
+  (rinside s1 AWorker = true /\ rinside s1 (AProd 1) = false /\ r_worker s1 = true /\ r_queue s1 = [(1, 0)] /\
+   r_r s1 = RSleep 0 /\ pending s1 = 2) /\
+  (rfinished 2 quota s2 = true /\ r_r s2 = RDone /\ r_worker s2 = false /\ r_log s2 = [(0, 0, 0); (1, 0, 1)] /\
+   accept_conc quota 2 (r_evs s2) = true).
+Proof. vm_compute. repeat split; reflexivity. Qed.
+
 (* ==================================================================================================================
    (f) SIGNAL SINKS (sendToSignal / SignalSink, ConcSigDefs.v): what a receiver QObject connected the way the library
    connects it (string-based AutoConnection) observes when N threads log concurrently.  [home] is the thread the receiver
